@@ -77,6 +77,9 @@ type interpreter struct {
 	specDepth   int
 	specGuard   []*sym.Term
 	sideConds   []*sym.Term
+	mergeLog    []int64
+	mergeLogPos int
+	mergeReplay bool
 	steps       int64
 	sawUnknown  bool
 	reached     []string
